@@ -98,19 +98,27 @@ def chk_order(c):
     from pyiga import assemble
     dim, npatch, joins = _complex(c['complex'])
     kvs = _kvs(dim, c.get('p', 2), c.get('n', 2))
-    mp = assemble.Multipatch([(kvs, None) for _ in range(npatch)])
-    N = int(np.prod([kv.numdofs for kv in kvs]))
+    pk = [kvs] * npatch
+    if c.get('hetero') and c['complex'].startswith('grid'):
+        # conforming, but not identical, patches: the knot vector along coordinate axis a depends on the patch's position along a
+        # (patches glued across a face share the knot vectors ALONG that face and differ ACROSS it)
+        from pyiga import bspline
+        dims = [int(x) for x in c['complex'][4:].split('x')]
+        cells = list(itertools.product(*[range(d) for d in dims]))
+        pk = [tuple(bspline.make_knots(c.get('p', 2), 0.0, 1.0, 1 + (cell[dim - 1 - k] + k) % 3) for k in range(dim)) for cell in cells]
+    mp = assemble.Multipatch([(kv_, None) for kv_ in pk])
+    Ns = [int(np.prod([kv.numdofs for kv in kv_])) for kv_ in pk]
     uf = UF()
     for j in c['order']:
         p1, b1, p2, b2, flip = joins[j]
         fl = c.get('flips', {}).get(str(j), flip)
         mp.join_boundaries(p1, b1, p2, b2, flip=fl)
-        d1 = assemble.boundary_dofs(kvs, b1, ravel=True)
-        d2 = assemble.boundary_dofs(kvs, b2, ravel=True, flip=fl)
+        d1 = assemble.boundary_dofs(pk[p1], b1, ravel=True)
+        d2 = assemble.boundary_dofs(pk[p2], b2, ravel=True, flip=fl)
         assert len(d1) == len(d2)
         for a, b in zip(d1.tolist(), d2.tolist()):
             uf.union((p1, a), (p2, b))
-    _check_structure(mp, uf, [N] * npatch)
+    _check_structure(mp, uf, Ns)
 
 
 def chk_history(c):
@@ -325,6 +333,12 @@ def generate(tier, rng):
                 perm = list(range(m))
                 rng.shuffle(perm)
             yield 'order', {'complex': name, 'order': perm, 'n': 1 if dim == 3 else 2}
+            if k % 3 == 0:
+                yield 'order', {'complex': name, 'order': perm, 'hetero': True, 'p': 1 + k % 2}
+    for name in ('grid2x1', 'grid2x2'):
+        dim, npatch, joins = _complex(name)
+        for perm in itertools.permutations(range(len(joins))):
+            yield 'order', {'complex': name, 'order': list(perm), 'hetero': True}
     # flips on a 2x1 / 2x2 complex (consistent flips on both orders)
     for perm in itertools.permutations(range(4)):
         yield 'order', {'complex': 'grid2x2', 'order': list(perm), 'flips': {'0': [True], '3': [True]}}
